@@ -3,6 +3,9 @@
 pub struct Parser<Callbacks: crate::callbacks::Callbacks = ()> {
     parser: vte::Parser,
     screen: crate::perform::WrappedScreen<Callbacks>,
+    // the trailing bytes of the input so far which are the beginning of a
+    // not yet complete utf-8 sequence
+    pending: Vec<u8>,
 }
 
 impl Parser {
@@ -17,6 +20,7 @@ impl Parser {
                 cols,
                 scrollback_len,
             ),
+            pending: vec![],
         }
     }
 }
@@ -36,13 +40,29 @@ impl<Callbacks: crate::callbacks::Callbacks> Parser<Callbacks> {
                 scrollback_len,
                 callbacks,
             ),
+            pending: vec![],
         }
     }
 
     /// Processes the contents of the given byte string, and updates the
     /// in-memory terminal state.
     pub fn process(&mut self, bytes: &[u8]) {
-        self.parser.advance(&mut self.screen, bytes);
+        // vte loses input when a utf-8 sequence is split across two calls
+        // and more multi-byte text follows it, so only ever hand it complete
+        // sequences, and keep an incomplete tail for the next call
+        if self.pending.is_empty() {
+            let keep = incomplete_utf8_tail(bytes);
+            let (bytes, tail) = bytes.split_at(bytes.len() - keep);
+            self.parser.advance(&mut self.screen, bytes);
+            self.pending.extend_from_slice(tail);
+        } else {
+            let mut buf = std::mem::take(&mut self.pending);
+            buf.extend_from_slice(bytes);
+            let keep = incomplete_utf8_tail(&buf);
+            let (bytes, tail) = buf.split_at(buf.len() - keep);
+            self.parser.advance(&mut self.screen, bytes);
+            self.pending.extend_from_slice(tail);
+        }
     }
 
     /// Returns a reference to a `Screen` object containing the terminal
@@ -70,6 +90,19 @@ impl<Callbacks: crate::callbacks::Callbacks> Parser<Callbacks> {
     pub fn callbacks_mut(&mut self) -> &mut Callbacks {
         &mut self.screen.callbacks
     }
+}
+
+/// The length of the longest suffix of `bytes` which is a proper prefix of a
+/// utf-8 encoded character.
+fn incomplete_utf8_tail(bytes: &[u8]) -> usize {
+    for len in (1..=bytes.len().min(3)).rev() {
+        if let Err(e) = std::str::from_utf8(&bytes[bytes.len() - len..]) {
+            if e.valid_up_to() == 0 && e.error_len().is_none() {
+                return len;
+            }
+        }
+    }
+    0
 }
 
 impl Default for Parser {
